@@ -3,7 +3,7 @@ import JivaVerif.Drv.Controller
 /-! Line-protocol driver for the whole-volume model (`drv cluster`).
 
 Requests: `init rf n`, `reg i | e` (`e`: the replica the election loop ended on, `-` = none),
-`w fails | applied`, `add i`, `promote i src`, `rbdone i`, `rm i`, `stop`.
+`w fails | applied`, `add i`, `setrb i`, `promote i src`, `rbdone i`, `rm i`, `stop`.
 Answer: result, then the observable state — which replicas are attached in which mode, and for every
 directory its counter, its rebuilding flag and the writes it holds — then the ghost part
 (acknowledged writes, and whether this stop found the volume in good health). -/
@@ -17,6 +17,7 @@ def parseClusterOp (n : Nat) (ws : List String) : Option Op :=
   | ["reg", i, "|", e] => do some (.reg (← i.toNat?) (← if e = "-" then some n else e.toNat?))
   | ["w", f, "|", a] => some (.write (natList f) (natList a))
   | ["add", i] => do some (.add (← i.toNat?))
+  | ["setrb", i] => do some (.setrb (← i.toNat?))
   | ["promote", i, src] => do some (.promote (← i.toNat?) (← src.toNat?))
   | ["rbdone", i] => do some (.rbdone (← i.toNat?))
   | ["rm", i] => do some (.remove (← i.toNat?))
